@@ -2040,6 +2040,9 @@ impl Engine {
                 self.w.resync_from_worktree();
                 self.register_new_commits(kind);
                 self.ai_pending = false;
+                // the pending attribution of everything is documented to be dropped
+                self.initial_files.clear();
+                self.pending_file_state.clear();
             }
             HOp::Stash => {
                 out.class = OpClass::Preserving;
@@ -2132,10 +2135,19 @@ impl Engine {
             HOp::CheckoutPath { file } | HOp::RestoreWorktree { file } => {
                 out.class = OpClass::Destructive;
                 let p = self.path_of(*file);
-                if matches!(op, HOp::CheckoutPath { .. }) {
-                    self.w.git(&["checkout", "--", &p]);
-                } else {
-                    self.w.git(&["restore", "--", &p]);
+                let had_pending_ai = self.initial_files.contains(&p) || self.pending_file_state.get(&p).map(|s| s.0).unwrap_or(false);
+                let o = if matches!(op, HOp::CheckoutPath { .. }) { self.w.git(&["checkout", "--", &p]) } else { self.w.git(&["restore", "--", &p]) };
+                if o.ok() && matches!(op, HOp::RestoreWorktree { .. }) && had_pending_ai {
+                    // F42: `git restore <path>` has no hook; the path's pending attribution
+                    // (unlike with `git checkout -- <path>`) survives the discarded content
+                    rep.class("restore-path-with-pending-ai");
+                    self.set_taint("path-restore-keeps-pending-attribution", rep);
+                }
+                if o.ok() {
+                    // the path's pending attribution (checkpoint entries and carried-over
+                    // INITIAL ranges) is documented to be dropped with its content
+                    self.initial_files.remove(&p);
+                    self.pending_file_state.remove(&p);
                 }
                 self.w.resync_from_worktree();
             }
@@ -2151,6 +2163,8 @@ impl Engine {
                 self.w.git(&["checkout", "-f", "-q", &b]);
                 self.w.resync_from_worktree();
                 self.ai_pending = false;
+                self.initial_files.clear();
+                self.pending_file_state.clear();
             }
             HOp::Mv { file } => {
                 out.class = OpClass::Destructive;
